@@ -866,3 +866,11 @@ def run(chk):
     chk.guard("O2.1", META, c02.supervisor, chk)
     chk.guard("O2.3", "<asyncio runner>", c02.asyncio_runner, chk)
     chk.guard("O2.4", "<trio runner>", c02.trio_runner, chk)
+    # "queued before the runtime starts, adopted afterwards": a payload that is never handed to its runner cannot
+    # end the run when it fails -- every queued / adopted payload reaches exactly one runner (shared with C03)
+    from . import c03
+
+    chk.guard("O3.1", META, c03.meta_register, chk)
+    chk.guard("O3.1", "<runners>", c03.runner_forwards, chk)
+    chk.guard("O3.5", c03.TRIO_RUNNER, c03.send_after_close, chk)
+    chk.guard("O3.5", c03.TRIO_RUNNER, c03.channel_writers, chk)
